@@ -238,7 +238,7 @@ def run(ctx):
                 elif nbad == 9:
                     ctx.broken.append(("correspondence: further cases disagree with the model", ""))
             ctx.cov["traces_validated_against_impl"] += len(part)
-    if ctx.broken and not ctx.findings and os.path.exists(os.path.join(verif.ROOT, "harness", "bin", "c14")):
+    if ctx.broken and not ctx.findings and os.path.exists(os.path.join(verif.HBIN, "c14")):
         # a proof or tie broke: look harder for an input on which the property itself fails on the real code
         more = run_harness(ctx, "search.jsonl", ["-seed", ctx.seed + 1000, "-n", 30000 if quick else 300000, "-hist", 2000,
                                                  "-dec", 0, "-str", 20000, "-pairs", "-big", 2097152], timeout=3000)
